@@ -66,6 +66,12 @@ func (sc *RevScenario) evalLiveness(rc *ruleCtx, obs *RevObs, leakRule, readRule
 			}
 			continue
 		}
+		if tc, ok := sc.cancelInstant(obs, co); ok && co.World.Entry == EValidateContext {
+			rc.st.Probes["cancel_landed_during_call"]++
+			if co.TReturn.After(tc) {
+				rc.fail(leakRule, "blocked_after_cancel", fmt.Sprintf("caller %d.%d: the context was cancelled at %s but the call only returned at %s", co.World.ID, co.Rep, rel(tc), rel(co.TReturn)))
+			}
+		}
 		li := lastInstant(obs, co)
 		if co.TReturn.After(li) {
 			rc.fail(leakRule, "blocked_after_last_answer", fmt.Sprintf("caller %d.%d: returned at %s although the last answer / cancellation it could wait for was at %s", co.World.ID, co.Rep, rel(co.TReturn), rel(li)))
@@ -85,6 +91,36 @@ func (sc *RevScenario) evalLiveness(rc *ruleCtx, obs *RevObs, leakRule, readRule
 			}
 		}
 	}
+}
+
+// cancelInstant returns the instant at which the caller's context was
+// cancelled, if that happened while the call was running.
+func (sc *RevScenario) cancelInstant(obs *RevObs, co *CallObs) (time.Time, bool) {
+	var tc time.Time
+	switch sc.Cancel {
+	case CancelBefore:
+		tc = co.TStart
+	case CancelAt, CancelDeadline:
+		tc = obs.T0.Add(sc.CancelAfter + time.Millisecond/2)
+	case CancelOnXchg:
+		for _, x := range obs.Net.All() {
+			if x.Rec.CancelledHere && (tc.IsZero() || x.Rec.TClosed.Before(tc)) {
+				tc = x.Rec.TClosed
+			}
+		}
+		if tc.IsZero() {
+			return tc, false
+		}
+	default:
+		return tc, false
+	}
+	if tc.Before(co.TStart) {
+		tc = co.TStart
+	}
+	if co.Returned && tc.After(co.TReturn) {
+		return tc, false
+	}
+	return tc, true
 }
 
 func firstLine(s string) string {
@@ -277,16 +313,18 @@ func (sc *RevScenario) panicReaches(obs *RevObs, co *CallObs) bool {
 		if co.Rep != sc.PanicRep {
 			return false
 		}
-		for _, s := range cp.OCSP {
-			for _, x := range s.X[co.Rep : co.Rep+1] {
-				if x.Fault.Kind == FPanic && x.Rec.Outcome == "panic" {
-					return true
+		for _, c := range w.Certs {
+			for _, s := range c.OCSP {
+				for _, x := range s.X[co.Rep : co.Rep+1] {
+					if x.Fault.Kind == FPanic && x.Rec.Outcome == "panic" {
+						return true
+					}
 				}
 			}
-		}
-		for _, s := range cp.CRL {
-			if x := s.XBase[co.Rep]; x.Fault.Kind == FPanic && x.Rec.Outcome == "panic" {
-				return true
+			for _, s := range c.CRL {
+				if x := s.XBase[co.Rep]; x.Fault.Kind == FPanic && x.Rec.Outcome == "panic" {
+					return true
+				}
 			}
 		}
 	case "fetcher":
